@@ -1,7 +1,8 @@
 (* Model of api/internal/image (IsImageMatched, Split), api/filters/imagetag (updater.go,
    legacy.go, imagetag.go) and the ImageTagTransformer plugin's Transform.
    The regular expression is the one THE CODE builds: the pattern text is assembled from the pieces
-   the translator reads out of image.go (Gen/C10Patterns.v) with the entry name spliced in verbatim,
+   the translator reads out of image.go (Gen/C10Patterns.v) — since /repo d3b6ede the entry name goes
+   through regexp.QuoteMeta —
    and compiled by Go's regexp package, which enters as the oracle [parse] (pattern text -> AST,
    None = compile error). *)
 From KV Require Export Base.Regex Yaml.FieldSpec.
@@ -61,7 +62,10 @@ Section WithRegexp.
     | Some p =>
         match parse p with
         | Some r => Ok (matches r s)
-        | None => if gen_image_compile_error_ignored then Panic (* nil *Regexp dereferenced *) else Err
+        | None =>
+            if gen_image_compile_error_ignored then Panic       (* nil *Regexp dereferenced *)
+            else if gen_image_compile_error_returns_false then Ok false   (* if err != nil { return false } *)
+            else Err
         end
     end.
 
